@@ -15,11 +15,13 @@
   <conv>     stanzas separated by `;` followed by the end marker `eof` or `bad`
              (so the empty conversation is just `eof`)
 
-  Reply: `p1=<stanzas> r=<stanzas> ui=<calls> res=<class>…` where p1 is phase 1
-  WITHOUT the grease stanza, r the replies, ui the log of callback invocations
-  (`d:<body>` / `r:<prompt>:<secret>` / `c:<prompt>:<yes>:<no>`), and res one of
-  `ok st=<stanzas> labels=nil|some:<hex,…>` / `ok key=<hex>` / `incorrect` /
-  `pluginerr:<hex>` / `protocol` / `eof` / `malformed` / `nostanzas`.
+  Reply: `<class> p1=<stanzas> r=<stanzas> ui=<calls>[ <values>]` where class is
+  one of `ok` / `incorrect` / `pluginerr:<hex>` / `protocol` / `eof` /
+  `malformed` / `nostanzas`, p1 is phase 1 WITHOUT the grease stanza, r the
+  replies, ui the log of callback invocations (`d:<body>` /
+  `r:<prompt>:<secret>` / `c:<prompt>:<yes>:<no>`), and the values of a
+  successful call are `st=<stanzas> labels=nil|some:<hex,…>` (plugrec) or
+  `key=<hex>` (plugid).
 -/
 import AgeModel.Wire
 import AgeModel.Plugin
@@ -121,10 +123,10 @@ def dropGrease : List Stanza → List Stanza
 
 def showOutcome {α : Type} (o : Outcome (List String) α) (showOk : α → String) : String :=
   let ui := if o.ui.isEmpty then "-" else ";".intercalate o.ui
-  let res := match o.result with
-    | .ok v => "ok " ++ showOk v
-    | .error e => showErr e
-  s!"p1={showStanzas (dropGrease o.phase1)} r={showStanzas o.replies} ui={ui} res={res}"
+  let (cls, vals) := match o.result with
+    | .ok v => ("ok", " " ++ showOk v)
+    | .error e => (showErr e, "")
+  s!"{cls} p1={showStanzas (dropGrease o.phase1)} r={showStanzas o.replies} ui={ui}{vals}"
 
 def plugrec (args : List String) : String :=
   match args with
